@@ -81,6 +81,24 @@ def half_scenarios(thorough, rng):
     return out
 
 
+def stream_scenarios(thorough, rng):
+    out = []
+    for role in "SC":
+        # every way to cut the first 12 octets (handshake + start of the first frame) at one or two places
+        pos = list(range(1, 13))
+        combos = [[a] for a in pos] + [[a, b] for a in pos for b in pos if a < b]
+        for c in combos:
+            out.append(dict(type="stream", role=role, ser=rng.choice([1, 2, 3]), lens=[rng.randrange(30, 200), rng.randrange(30, 200)], cuts=c))
+        for _ in range(400 if thorough else 80):
+            lens = [rng.choice([30, 125, 126, 300, 4000, rng.randrange(30, 2000)]) for _ in range(rng.randrange(1, 6))]
+            total = 4 + sum(lens) + 4 * len(lens)
+            cuts = sorted(rng.sample(range(1, total), min(total - 1, rng.randrange(0, 9))))
+            out.append(dict(type="stream", role=role, ser=rng.choice([1, 2, 3, 4]), lens=lens, cuts=cuts))
+        # octet by octet
+        out.append(dict(type="stream", role=role, ser=1, lens=[40, 41], cuts=list(range(1, 4 + 44 + 45))))
+    return out
+
+
 def pair_scenarios(thorough, rng, n):
     out = []
     for i in range(n):
@@ -112,7 +130,7 @@ def run(res):
     res.add_model("WampTransport", r)
     hs = hs_cases(thorough, rng)
     neg = neg_pairs(thorough, rng)
-    half = half_scenarios(thorough, rng)
+    half = half_scenarios(thorough, rng) + stream_scenarios(thorough, rng)
     pairs = pair_scenarios(thorough, rng, 1500 if thorough else 300)
     jobs = []
     for fwn in ("tx", "aio"):
@@ -146,7 +164,7 @@ def run(res):
         ctx = ([t[0]] + t[max(1, l - 6):l - 1]) if (at and at["ev"] not in ("rs_hs", "ws_neg")) else []
         res.classify("c13-%s-%d" % (meta[idx], idx), dict(fw=meta[idx], rejected_event=at, preceding=ctx, spec="WampTransportTrace"))
     if not v["rejected"]:
-        for k, n in (("rs_hs", 5000), ("ws_neg", 500), ("link_send", 80), ("link_recv", 40), ("link_inject", 20), ("pair_rx", 300), ("pair_inject", 100)):
+        for k, n in (("rs_hs", 5000), ("ws_neg", 500), ("link_send", 80), ("link_recv", 40), ("link_inject", 20), ("stream", 200), ("pair_rx", 300), ("pair_inject", 100)):
             if nev.get(k, 0) < n:
                 raise common.MachineryError("vacuous: too few %s events: %s" % (k, nev))
     res.extra["events"] = nev
